@@ -140,7 +140,23 @@ func checkC16(r *core.Run) {
 	guarded := map[*ast.CallExpr]bool{}
 	analyseGuards := func(f *core.FuncInfo) {
 		sp := &flow.Spec{W: w, Depth: 0,
-			Classify: func(pkg *packages.Package, call *ast.CallExpr, callee *types.Func) []flow.Tag { return []flow.Tag{"c"} },
+			Classify: func(pkg *packages.Package, call *ast.CallExpr, callee *types.Func) []flow.Tag {
+				// a helper of the package that answers a flag (`request, need := branchRegisterParam(ctx)`) is read
+				// in the caller's context: the tests it made hold where the caller has tested the flag
+				if g := w.Info(callee); g != nil && g.Pkg == pkg && g.Decl.Body != nil {
+					rs := callee.Type().(*types.Signature).Results()
+					nb := 0
+					for i := 0; i < rs.Len(); i++ {
+						if b, ok := rs.At(i).Type().Underlying().(*types.Basic); ok && b.Kind() == types.Bool {
+							nb++
+						}
+					}
+					if nb == 1 && rs.Len() == 2 {
+						return nil
+					}
+				}
+				return []flow.Tag{"c"}
+			},
 			CondTags: func(pkg *packages.Package, cond ast.Expr, branch bool) []flow.Tag {
 				if gtxPred(pkg.TypesInfo, cond, branch) {
 					return []flow.Tag{"gtx"}
